@@ -1073,6 +1073,10 @@ impl BigInt {
     /// ```
     pub fn modinv(&self, modulus: &Self) -> Option<Self> {
         let result = self.data.modinv(&modulus.data)?;
+        if result.is_zero() {
+            // only for modulus ±1: the sole representative in [0, 1) or (-1, 0] is zero
+            return Some(Self::ZERO);
+        }
         // The sign of the result follows the modulus, like `mod_floor`.
         let (sign, mag) = match (self.is_negative(), modulus.is_negative()) {
             (false, false) => (Plus, result),
